@@ -328,3 +328,103 @@ def c19(ctx):
     ctx.assumptions += ["the chain is judged by the state of the governed animator (Ended under the active key), whichever Ended event wakes the system (DESIGN 6 C19)",
                         "same-frame races between a user key assignment and a pending chain are left open"]
     return "model_checking", RULE_BEVY
+
+
+# =========================================================================================
+#  timelines as objects: C09 (purity) and C12 (merged), and C20 (no panic / debug = release)
+# =========================================================================================
+NKO = 10
+
+
+def objects_mc(ctx):
+    for ko in ((1, 4, 5, 8) if ctx.quick() else range(1, NKO + 1)):
+        run_tlc(ctx, "MC_Objects", "MC_Objects_quick.cfg", workers=8, subst={"KO": ko, "Depth": 2 if ctx.quick() else 3}, timeout=3000)
+
+
+def objects_legA(ctx, release=False):
+    reps = []
+    plans = [({"KO": 0, "Depth": 6, "NRand": 2 if ctx.quick() else 12}, "-3,0")]
+    for ko in range(1, NKO + 1):
+        plans.append(({"KO": ko, "Depth": 24, "NRand": 40 if ctx.quick() else 600}, "-3,0,5"))
+    for sub, scales in plans:
+        run = run_tlc(ctx, "MC_Objects", "Gen_Objects.cfg", workers=4, subst=sub, capture="gen-obj.txt", timeout=3000)
+        n = count_replay(run["out"])
+        if n == 0:
+            raise ToolError("object generator produced no behaviours (%s)" % sub)
+        rep = run_harness(["replay-obj", run["out"], scales], release=release)
+        if rep["lines"] != n:
+            raise ToolError("harness read %d of %d behaviours" % (rep["lines"], n))
+        ctx.traces += n * len(scales.split(","))
+        ctx.evaluations += rep["evals"]
+        if sub["KO"] == 5:
+            for obj in replay_lines(run["out"]):
+                obj["ops"] = obj["ops"][:6]; obj["obs"] = obj["obs"][:6]
+                ctx.sample({"replayed_object_history": obj})
+                break
+        os.remove(run["out"])
+        reps.append(rep)
+    return merge_reports(reps)
+
+
+RULE_OBJ = ("TLC generates operation histories (update at arbitrary, non-monotone times into targets with different prior contents / start_with / clone) "
+            "on a heap of up to 3 timeline objects, for 10 object shapes and for EVERY list of 0..3 components over 8 timeline shapes (all orders), "
+            "with the spec's predictions (value terms and aggregate metadata after every operation); replayed on real P4Timeline / MergedTimeline "
+            "objects incl. idempotence, independence of prior target contents, and the raw vs. wrapped single timeline")
+
+
+@check("C09")
+def c09(ctx):
+    objects_mc(ctx)
+    rep = objects_legA(ctx)
+    judge_replay(ctx, rep, lambda m: m.get("class") in ("value", "idempotent", "prior-contents", "meta"), "results depend on something other than (timeline, start_with, time)")
+    return "model_checking", RULE_OBJ
+
+
+@check("C12")
+def c12(ctx):
+    objects_mc(ctx)
+    rep = objects_legA(ctx)
+    judge_replay(ctx, rep, lambda m: m.get("class") in ("value", "meta", "single-wrapped"), "merged timeline is not the ordered overlay with aggregate timing")
+    ctx.assumptions += ["for repeats of equal rank (None vs Times(0)) any maximal element is accepted"]
+    return "model_checking", RULE_OBJ
+
+
+@check("C20")
+def c20(ctx):
+    run_tlc(ctx, "MC_TimeScale", "MC_TimeScale_quick.cfg", workers=4)
+    run_apalache(ctx, "TimeScaleInt", "Inv")
+    run_apalache(ctx, "TimeScaleInt", "NoPrematureEnd", cinit="CInitWrap", expect_violation=True)
+    # leg B in BOTH build profiles: identical logs, both accepted by the spec
+    logs = []
+    for release in (False, True):
+        tr = ctx.path("ts-%s.ndjson" % ("release" if release else "debug"))
+        rep = run_harness(["drive-ts", ctx.seed, 300 if ctx.quick() else 4000, tr], release=release)
+        logs.append((tr, rep))
+    ok, rej, _ = run_trace(ctx, "Trace_TimeScale", logs[0][0])
+    ctx.traces += logs[0][1]["configs"]
+    ctx.evaluations += logs[0][1]["events"]
+    if not ok:
+        ctx.violation("trace rejected (debug build)", {"first_unmatched_record": rej})
+    if open(logs[0][0]).read() != open(logs[1][0]).read():
+        ctx.violation("debug and release builds log different observations for the same time-scale inputs", {"what": "drive-ts logs differ"})
+    # leg A with huge repeat counts (Times(u32::MAX)) in both profiles
+    for release in (False, True):
+        rep = objects_legA(ctx, release=release)
+        judge_replay(ctx, rep, lambda m: True, "objects incl. Times(u32::MAX), %s build" % ("release" if release else "debug"))
+    # supplementary sweep: arbitrary finite f32 inputs, both profiles, identical digests
+    n = 4000 if ctx.quick() else 200000
+    ex = [run_harness(["drive-extreme", ctx.seed, n], release=r) for r in (False, True)]
+    ctx.evaluations += ex[0]["evaluations"]
+    ctx.extra["extreme_sweep"] = {"configs": ex[0]["configs"], "evaluations": ex[0]["evaluations"], "digest_debug": ex[0]["digest"], "digest_release": ex[1]["digest"]}
+    for e, prof in zip(ex, ("debug", "release")):
+        for i in e["first"]:
+            ctx.violation("extreme input (%s build)" % prof, i)
+        for i in e["animator_issues"]:
+            ctx.violation("animator with an astronomically large advance (%s build)" % prof, i)
+    if ex[0]["digest"] != ex[1]["digest"]:
+        ctx.violation("debug and release builds produce different results on the extreme-input sweep", {"debug": ex[0]["digest"], "release": ex[1]["digest"]})
+    ctx.assumptions += ["domain: cycle > 0, finite delay, and an exact total duration representable in f32",
+                        "the arbitrary-f32 sweep is supplementary (oracle: no panic, finite, in range, debug = release), not spec-decided"]
+    return "model_checking", ("Apalache: every repeat count N (no wrap: negative control with symbolic modulus must fail); TLC validates the exact-tick traces incl. "
+                              "Times(u32::MAX) recorded in a debug and a release build (logs must be identical); object histories incl. huge repeat counts replayed in both "
+                              "profiles; seeded sweep of arbitrary finite f32 durations/delays/times/values with boundary repeat counts in both profiles")
